@@ -4,7 +4,7 @@ from __future__ import annotations
 
 from io import BytesIO
 
-from vlib import build, snapshot
+from vlib import iovariants, build, snapshot
 from vlib.harness import PropertyViolation, run_property
 
 PROPERTY_ID = "C01"
@@ -24,7 +24,7 @@ ASSUMPTIONS = [
     "sunvox_version is the writer's identity and is left at the library's value",
 ]
 REQUIRED_LABELS = {
-    "quick": ["gap", "clone", "empty_pattern_slot", "name_straddles_32", "links", "freed_link_slot", "cells", "project_fields", "second_stage"],
+    "quick": ["gap", "clone", "empty_pattern_slot", "name_straddles_32", "links", "freed_link_slot", "cells", "project_fields", "second_stage", "metamodule_nested_2_levels"],
     "thorough": ["gap", "clone", "empty_pattern_slot", "name_straddles_32", "links", "freed_link_slot", "cells", "project_fields", "metamodule", "sampler_with_samples", "unit_changed"]
     + ["type_" + t for t in build.attachable_types()],
 }
@@ -129,6 +129,9 @@ def check_project_spec(ctx, spec):
         raise PropertyViolation("C01.roundtrip", "; ".join("%s: %r -> %r" % x for x in d[:4]), key="C01.roundtrip:" + area)
     check_identities(q, "loaded")
     check_identities(p, "original")
+    # the other ways of writing / reading the same file
+    iovariants.writers_agree(p, data, "C01")
+    iovariants.loaders_agree(data, s1, snapshot.snap_project, "C01", ".sunvox")
     # second stage on the same in-memory project: it has been saved already; more API calls follow
     # (more modules, links, patterns, field assignments, edits of existing modules) and the project
     # must still save exactly what it holds
@@ -192,6 +195,19 @@ def run_shard(ctx, desc):
         if len(repr(spec)) < 2500:
             ctx.sample(spec)
 
+    # projects that hold containers nested several levels deep (MetaModule in MetaModule in ...)
+    @_st.composite
+    def deep(draw):
+        spec = draw(build.project_spec(depth=0, max_modules=3, max_patterns=1, top=True))
+        spec["modules"].append(draw(build.nested_meta(max_levels=4)))
+        return spec
+
+    def body_deep(spec):
+        body(spec)
+        ctx.label("metamodule_nested_%d_levels" % min(3, max(build.meta_depth(ms) for ms in spec["modules"])))
+
+    if not run_property(ctx, deep(), body_deep, max(4, desc["examples"] // 12), tag="deep", bucket="project"):
+        return
     run_property(ctx, spec_with_second_stage(depth, desc["max_modules"]), body, desc["examples"], tag="project", bucket="project")
 
 
